@@ -20,7 +20,7 @@ package main
 //      fswrite:<hex rel>:<hex content>  fsrm:<hex rel>  fsmkdir:<hex rel>  fslink:<hex rel>:<hex target>   disk only, no message
 //      popen:<hex rel>:<hex text>  pchange:<hex rel>:<hex text>  psave:<hex rel>[:<hex text>]  pclose:<hex rel>
 //                                               didOpen / didChange (full text) / didSave (with or without text) / didClose
-//      phover:<hex rel>:l:c  pdocsym:<hex rel>  requests on such a path
+//      phover:<hex rel>:l:c  pdocsym:<hex rel>  requests on such a path (pdocsyms:<hex rel> prints the outline entries)
 //      alive                                    a fence round trip: `alive=ok` when the server answered it
 //      config:<hex JSON settings>               ONE workspace/didChangeConfiguration notification, params {"settings": <that JSON>}
 //                                               (e.g. {"luahelper":{"base":{"ReferenceIncudeDefine":false}}}); no answer item
@@ -543,6 +543,18 @@ func runScript(line string) string {
 		case "pdocsym":
 			_, e := s.call("textDocument/documentSymbol", map[string]interface{}{"textDocument": map[string]interface{}{"uri": puri(a[1])}})
 			out = append(out, "pdocsym="+map[bool]string{true: "ok", false: e}[e == ""])
+		case "pdocsyms":
+			// the outline of a path-addressed file WITH its entries (pdocsym only says whether the request was answered)
+			raw, e := s.call("textDocument/documentSymbol", map[string]interface{}{"textDocument": map[string]interface{}{"uri": puri(a[1])}})
+			if e != "" {
+				out = append(out, "pdocsyms="+e)
+				break
+			}
+			var syms []docSym
+			json.Unmarshal(raw, &syms)
+			var b strings.Builder
+			docSymS(&b, syms)
+			out = append(out, "pdocsyms="+b.String())
 		case "rchange":
 			version++
 			ch := map[string]interface{}{"text": string(unhex(a[6])), "range": map[string]interface{}{
